@@ -2,6 +2,7 @@ package main
 
 import (
 	"fmt"
+	"math/big"
 	"path/filepath"
 	"strings"
 
@@ -111,8 +112,23 @@ func runC10(r *Run) {
 		}
 		goal := fmt.Sprintf("(and (= %d 5) %s (= %s (+ %s)))", len(out), strings.Join(rng, " "), hn, strings.Join(sum, " "))
 		em.Assert("(not " + goal + ")")
-		r.Add(&Ob{Name: "BN254.ToVec/chunks-are-digits", Family: "bn254-conversions", Script: em.String(), Site: "BN254.ToVec", Bound: "every hash value in [0,r): five chunks below 2^56 (the last below 2^30) whose base-2^56 sum is the hash over the integers; by uniqueness of digits these are plonky2's 7-byte little-endian chunks, and distinct hashes give distinct chunk vectors",
-			OnFail: func(res smt.Result) *Violation { return nil }})
+		seen := em.AtomsSeen
+		outs := out
+		r.Add(&Ob{Name: "BN254.ToVec/chunks-are-digits", Family: "bn254-conversions", Script: em.String(), Site: "BN254.ToVec", Values: sym.SortedAtomNames(seen), Bound: "every hash value in [0,r): five chunks below 2^56 (the last below 2^30) whose base-2^56 sum is the hash over the integers; by uniqueness of digits these are plonky2's 7-byte little-endian chunks, and distinct hashes give distinct chunk vectors",
+			OnFail: func(res smt.Result) *Violation {
+				memo := map[*sym.Term]*big.Int{}
+				g := &gadgetReplay{Kind: "gadget", Gadget: "ToVec", Cfg: "bitdecomp-r1cs", Expect: "accepted", Overrides: overridesFromModel(e, res.Model, seen)}
+				g.In = []string{evalTerm(h, res.Model, memo).String()}
+				for _, o := range outs {
+					g.Out = append(g.Out, evalTerm(e.K(o.Limb), res.Model, memo).String())
+				}
+				acc, msg := runGadgetReplay(g)
+				if !acc {
+					r.Note("replay of ToVec not accepted: %s", msg)
+					return nil
+				}
+				return &Violation{What: fmt.Sprintf("BN254.ToVec: the real constraint system accepts hash %s with chunks %v, which are not its base-2^56 digits (dishonest bit-decomposition hint)", g.In[0], g.Out), Replay: toMap(g), Outcome: "real constraint system (gnark r1cs builder + solver, hints overridden) satisfied"}
+			}})
 		em2 := sym.NewEmitter()
 		em2.Refined = true
 		em2.AssertAll(e)
